@@ -158,6 +158,7 @@ pub fn decode_range(data: &[u8]) -> Option<c03::Case> {
         range: Bs(v.to_vec()),
         plan: vec![],
         headers: vec![],
+        if_range: sel % 5 == 0,
     })
 }
 
